@@ -191,14 +191,16 @@ def check_case(case):
         if isinstance(e, AttributeError) and c13.EXPLAIN.search(str(e)):
             return result([], False, classes + ["refused:AttributeError"])
         cause = "zero-lipschitz" if zero_cols else ("zero-target" if any(f in ("y-zero",) for f in case["flags"]) else "other")
-        return result([Viol(dict(sig, kind="exception", exc=type(e).__name__, cause=cause),
+        wild = c01.wild_newton_step(case, None) if solver in ("ProxNewton", "GroupProxNewton") else False
+        return result([Viol(dict(sig, kind="exception", exc=type(e).__name__, cause=cause, wild_newton_step=wild),
                             f"{solver} on degenerate data {case['flags']} raised {type(e).__name__}: {str(e)[:150]!r}")], True, classes)
     viol = []
     w = np.asarray(out.w)
     n_iter = len(out.obj)
     ran = case["solver"].get("max_iter", 1) > 0
     if not np.all(np.isfinite(w)):
-        viol.append(Viol(dict(sig, kind="non-finite", what="coefficients"), f"{solver} on {case['flags']} returned non-finite coefficients"))
+        wild = c01.wild_newton_step(case, None) if solver in ("ProxNewton", "GroupProxNewton") else False
+        viol.append(Viol(dict(sig, kind="non-finite", what="coefficients", wild_newton_step=wild), f"{solver} on {case['flags']} returned non-finite coefficients"))
         return result(viol, True, classes)
     if ran and n_iter >= 1 and not math.isfinite(out.stop):
         viol.append(Viol(dict(sig, kind="non-finite", what="stop_crit"), f"{solver} on {case['flags']} returned stop_crit={out.stop!r} after {n_iter} iterations"))
